@@ -5,6 +5,7 @@
   ScionTime/Proofs/{Sample,Multipath}.lean.
 -/
 import ScionTime.Proofs.Sample
+import ScionTime.Proofs.Reservoir
 import ScionTime.Proofs.Multipath
 import ScionTime.Gen.Crypto
 import ScionTime.Gen.Client
@@ -413,14 +414,27 @@ theorem C15_reservoir_step (k n : Nat) (res : List Nat) (hl : res.length = k) (h
     ∀ x ∈ res, countP (fun j => decide (x ∈ stepRes res j n)) (List.range (n + 1)) = n :=
   ⟨step_count_new k n res ⟨hl, hn, hb⟩ hk, fun x hx => step_count_old k n x res ⟨hl, hn, hb⟩ hk hx⟩
 
-/-- Uniform inclusion (counting form, induction on the number of items): over all draw vectors
-    for `n = k + m` offered items, every item `x < n` is selected in exactly the fraction `k/n`
-    of them:  #{draws : x ∈ reservoir} · n = k · #{draws}.
+/-- Uniformity of the reservoir, counting form over ideal uniform draws (induction on the
+    number of items): every `k`-subset `S` of the `n = k + m` offered items (given as a
+    duplicate-free list; the reservoir is compared up to permutation, i.e. as a set) is produced
+    by the same number of draw vectors, `m! = (n-k)!` — out of `(k+1)(k+2)…n` draw vectors
+    (`C15_allDraws_length`), i.e. with probability `1 / C(n,k)` each. -/
+theorem C15_reservoir_uniform (k m : Nat) (S : List Nat) (hn : S.Nodup) (hl : S.length = k)
+    (hb : ∀ y ∈ S, y < k + m) :
+    countP (fun js => decide (reservoir k js ~ S)) (allDraws k m) = fact m := by
+  have h := joint_uniform k m S hn hl hb
+  unfold outcomes at h
+  rw [countP_map] at h
+  exact h
 
-    This is the marginal (per-item) form. The joint form of DESIGN.md — every `k`-subset of
-    `[0,n)` is produced by the same number, `(n-k)!`, of draw vectors — is NOT proved here;
-    it would follow by the same induction with the case split `n ∈ S` / `n ∉ S`. -/
-theorem C15_reservoir_uniform_partial (k m x : Nat) (hx : x < k + m) :
+/-- the hypotheses are met by every `k`-subset, e.g. `{1, 3}` of `[0, 4)`: 2 of the 12 draw
+    vectors each -/
+example : countP (fun js => decide (reservoir 2 js ~ [3, 1])) (allDraws 2 2) = fact 2 :=
+  C15_reservoir_uniform 2 2 [3, 1] (by decide) rfl (by decide)
+
+/-- Marginal form: every item `x < n` is selected in exactly the fraction `k/n` of the draw
+    vectors:  #{draws : x ∈ reservoir} · n = k · #{draws}. -/
+theorem C15_reservoir_inclusion (k m x : Nat) (hx : x < k + m) :
     countP (fun js => decide (x ∈ reservoir k js)) (allDraws k m) * (k + m) =
       k * (allDraws k m).length := by
   have h := inclusion_count k m x hx
